@@ -201,11 +201,39 @@ func (p *Project) MergeProfiles(jdk string, os ActivationOS) (err error) {
 		prof.Properties.merge(p.Properties)
 		p.Properties = prof.Properties
 
-		p.DependencyManagement.merge(prof.DependencyManagement)
-		p.Dependencies = append(p.Dependencies, prof.Dependencies...)
+		p.DependencyManagement.Dependencies = injectDependencies(p.DependencyManagement.Dependencies, prof.DependencyManagement.Dependencies)
+		p.Dependencies = injectDependencies(p.Dependencies, prof.Dependencies)
 		p.Repositories = append(p.Repositories, prof.Repositories...)
 	}
 	return
+}
+
+// injectDependencies adds the dependencies of an active profile to deps the
+// way Maven injects a profile into a model: the profile is dominant, so a
+// declaration with the key of an existing one replaces it in place, and the
+// others are appended.
+func injectDependencies(deps, profile []Dependency) []Dependency {
+	if len(profile) == 0 {
+		return deps
+	}
+	// Do not write to a slice the caller may share.
+	deps = append([]Dependency(nil), deps...)
+	for _, pd := range profile {
+		keyed := pd // Key may fill in the type: take it from a copy.
+		key := keyed.Key()
+		replaced := false
+		for i, d := range deps {
+			if d.Key() == key {
+				deps[i] = pd
+				replaced = true
+				break
+			}
+		}
+		if !replaced {
+			deps = append(deps, pd)
+		}
+	}
+	return deps
 }
 
 func appendError(e1, e2 error) error {
